@@ -22,9 +22,12 @@ Spellings == { <<49, 46, 53, 69, 49>>, <<49, 53, 101, 45, 49>>, <<49, 53, 69, 45
                <<48, 46, 53, 101, 49>>, <<50, 46, 53, 48, 69, 43, 49>>, <<49, 46, 48>>, <<45, 48>>, <<49, 69, 43, 50>>, <<49, 53, 48, 69, 45, 49>>,
                <<50, 46, 53, 69, 49>>, <<49, 46, 50, 53, 101, 49>>, <<49, 46, 53, 101, 43, 48>>, <<45, 49, 46, 53, 69, 49>>, N1, N1_5, N10 }
 Docs == {NumD(b) : b \in Spellings}
+        \cup {OV(<<KV(Ka, NumD(b))>>) : b \in Spellings}          \* the same numerals as values of a property the example does not name
         \cup {OV(<<>>), OV(<<KV(Empty, NumD(N1))>>), OV(<<KV(Empty, NumD(N1)), KV(Ka, NumD(N2))>>), OV(<<KV(Ka, NumD(N2))>>), OV(<<KV(Empty, StrD(Sa))>>)}
 DocSeq == SetToSeq(Docs)
 Schemas == { One, Lit(NumD(N1_5), <<>>), Arr(<<One, Lit(NumD(N1_5), <<>>)>>, <<>>),
+             \* the kind named by additionalProperties goes by the value of a numeral, like the kind of an example
+             Obj(<<>>, <<R("additionalProperties", [t |-> "id", s |-> "integer"])>>), Obj(<<>>, <<R("additionalProperties", [t |-> "id", s |-> "float"])>>),
              Obj(<<P(Empty, One)>>, <<>>), Obj(<<P(Empty, Lit(NumD(N1), <<R("optional", BV(FALSE))>>))>>, <<>>),
              Obj(<<P(Empty, Lit(NumD(N1), <<R("optional", BV(TRUE))>>)), P(Ka, Lit(NumD(N2), <<>>))>>, <<>>),
              Obj(<<P(Ka, Lit(NumD(N2), <<R("optional", BV(TRUE))>>)), P(Empty, One)>>, <<>>) }
